@@ -14,6 +14,15 @@ WEIGHTS = {'create': 30, 'iter': 22, 'conv': 8, 'drop': 10, 'clone': 6}
 
 def run(ctx):
     histcheck.run(ctx, MODULE, WEIGHTS, TAGS, lean_extra=EXTRA)
+    # constructors that need `T: Copy` (from_header_and_slice, From<&[T]>, From<&str>, From<String>) and every
+    # header/element size-alignment class: the shape-matrix harness, contents read back
+    from vlib import layout_corr
+    okc, stats, texts = layout_corr.contents_pass(ctx)
+    ctx.oblige("corr:constructor-contents-over-shape-matrix", okc, str(stats))
+    ctx.coverage["shape_matrix_contents"] = stats
+    ctx.coverage["evaluations"] = ctx.coverage.get("evaluations", 0) + stats["cases"]
+    if not okc:
+        ctx.violation("ops", "constructor over the size/alignment matrix: contents read back differ from the input\n\n" + "\n\n".join(texts), True)
 
 
 def replay(ctx, path):
